@@ -228,6 +228,70 @@ func phiBoolExpr(phi *ssa.Phi, depth int) (*BExpr, error) {
 	return bOr(terms...), nil
 }
 
+// FuncBoolExpr extracts the boolean function computed by a loop-free function
+// with a single bool result: the disjunction over all entry→return paths of
+// (branch atoms ∧ returned value).
+func FuncBoolExpr(fn *ssa.Function) (*BExpr, error) {
+	paths, complete := EnumPaths(fn.Blocks[0], nil, 8192)
+	if !complete {
+		return nil, fmt.Errorf("too many paths in %s", FuncName(fn))
+	}
+	var terms []*BExpr
+	for _, p := range paths {
+		last := p.Last()
+		if last == fn.Recover {
+			continue
+		}
+		ret, ok := last.Instrs[len(last.Instrs)-1].(*ssa.Return)
+		if !ok {
+			if len(last.Succs) == 0 {
+				continue // panic exit
+			}
+			return nil, fmt.Errorf("%s contains a loop", FuncName(fn))
+		}
+		res := RetResults(ret)
+		if len(res) != 1 {
+			return nil, fmt.Errorf("%s does not return a single value", FuncName(fn))
+		}
+		ve, err := boolExpr(p.Resolve(res[0]), 0)
+		if err != nil {
+			return nil, err
+		}
+		conj := []*BExpr{}
+		for _, a := range p.Atoms {
+			var ce *BExpr
+			if b, ok := a.V.(*ssa.BinOp); ok && (b.Op == token.NEQ || b.Op == token.EQL) {
+				ce = &BExpr{Op: "atom", Atom: a.Expr}
+			} else {
+				ce, err = boolExpr(p.Resolve(a.V), 1)
+				if err != nil {
+					return nil, err
+				}
+			}
+			if !a.Pos {
+				ce = bNot(ce)
+			}
+			conj = append(conj, ce)
+		}
+		conj = append(conj, ve)
+		terms = append(terms, bAnd(conj...))
+	}
+	return bOr(terms...), nil
+}
+
+// Deref looks through a load of a local cell that is assigned exactly once.
+func Deref(v ssa.Value) ssa.Value {
+	v = Unwrap(v)
+	if u, ok := v.(*ssa.UnOp); ok && u.Op == token.MUL {
+		if al, ok := u.X.(*ssa.Alloc); ok {
+			if sv := SingleAssign(al); sv != nil {
+				return Unwrap(sv)
+			}
+		}
+	}
+	return v
+}
+
 // TruthTableEqual compares e with spec over all assignments of the union of
 // e's atoms and specAtoms; it returns a counterexample assignment on mismatch.
 func TruthTableEqual(e *BExpr, specAtoms []string, spec func(env map[string]bool) bool) (bool, map[string]bool, error) {
